@@ -28,7 +28,9 @@ Obl(e) ==
          <<"rsa-is-rfc3279-der", e.rsa_ok => e.rsa = SpkiRsa(e.n, e.e)>>,
          <<"unmarshal-pss-inverts", e.un_pss_ok /\ e.un_pss_n = StripLeadingZeros(e.n) /\ e.un_pss_e = StripLeadingZeros(e.e)>>,
          <<"unmarshal-rsa-inverts", e.rsa_ok => (e.un_rsa_ok /\ e.un_rsa_n = StripLeadingZeros(e.n) /\ e.un_rsa_e = StripLeadingZeros(e.e))>>,
-         <<"spec-parse-agrees", LET p == ParseSpki(e.pss) IN p.ok /\ p.n = e.un_pss_n /\ p.e = e.un_pss_e>> >>
+         <<"spec-parse-agrees", LET p == ParseSpki(e.pss) IN p.ok /\ p.n = e.un_pss_n /\ p.e = e.un_pss_e>>,
+         \* beyond the listed properties (reported as an observation): MarshalTokenKey(key, legacy) selects the form
+         <<"beyond:marshal-token-key-selects-form", e.wrapper_ok /\ e.wrapper_pss = e.pss /\ (e.rsa_ok => e.wrapper_rsa = e.rsa)>> >>
     [] e.op = "KeyId" -> <<
          <<"key-id-is-sha256-of-serialized-key", e.key_id = e.sha_pub>>,
          <<"key-id-32-bytes", Len(e.key_id) = 32>>,
